@@ -14,14 +14,15 @@ end Sys
 variable {env : SimEnv} {s0 : Sys}
 
 /-- H2 along the run -/
-theorem nco_oneAdm_B (N : NcCfgB env s0) {k : SimState} (hr : SimReach env s0 k) (hreach : ReachOk s0 k.st) :
+-- F14: legacy (the H2-based argument); `h2` is now an explicit hypothesis, `NcCfg` has lost the field
+theorem nco_oneAdm_B (N : NcCfgB env s0) (h2 : Sys.OneAdmission s0) {k : SimState} (hr : SimReach env s0 k) (hreach : ReachOk s0 k.st) :
     OneAdmL k.st.totalArrays k.st.maxIngest k.st.obs := by
   rw [nco_reach_totalArrays hreach.toReach, reach_maxIngest s0 k.st N.hw hreach]
-  have h0 : OneAdmL s0.totalArrays s0.maxIngest s0.obs := N.h2
+  have h0 : OneAdmL s0.totalArrays s0.maxIngest s0.obs := h2
   exact h0.keep (a := s0) (b := k.st) (hr.keep0 N.hw)
 
 /-- one kernel step (a block of the live process `p`) keeps `IngInv` -/
-theorem Sys.IngInv.step_B (N : NcCfgB env s0) {k k1 : SimState} (hr : SimReach env s0 k)
+theorem Sys.IngInv.step_B (N : NcCfgB env s0) (h2 : Sys.OneAdmission s0) {k k1 : SimState} (hr : SimReach env s0 k)
     (hreach : ReachOk s0 k.st) (hr1 : SimReach env s0 k1) (inv : IngInv k.st) {e : HEntry} {p : Proc}
     (hpk : k.peek = some e) (hpp : k.st.proc? e.pid = some p) (ha : p.alive = true)
     (hst : k1.st = (k.st.resume e.pid (env.oracle k.st)).1) : IngInv k1.st := by
@@ -226,7 +227,7 @@ theorem Sys.IngInv.step_B (N : NcCfgB env s0) {k k1 : SimState} (hr : SimReach e
       have h1 := hs1.eg.admNodup
       rw [(resume_telSame k.st e.pid orc p hpp ha).admitted, block_telescope orc hk] at h1
       exact h1
-    have hadm := nco_telescopeBlock k.st p.wake hacct hnd (nco_oneAdm_B N hr hreach) hp0
+    have hadm := nco_telescopeBlock k.st p.wake hacct hnd (nco_oneAdm_B N h2 hr hreach) hp0
     have hblk : (k.st.block p orc).1 = (k.st.telescopeBlock p.wake).1 := by rw [block_telescope orc hk]
     rw [← hblk] at hadm
     -- the old pending processes are harmless
@@ -292,17 +293,17 @@ theorem nco_step_ctx_B (N : NcCfgB env s0) (n : Nat) (hc1 : (simAt env s0 (n + 1
   refine ⟨hc, simRun_reachOk hw hrun hhalt, e, p, hpk, hpp, ha, ?_⟩
   rw [simAt_succ_of_step hs]; exact hst
 
-theorem nco_ingInv_B (N : NcCfgB env s0) (n : Nat) (hc : (simAt env s0 n).st.crashed = none) :
+theorem nco_ingInv_B (N : NcCfgB env s0) (h2 : Sys.OneAdmission s0) (n : Nat) (hc : (simAt env s0 n).st.crashed = none) :
     IngInv (simAt env s0 n).st := by
   induction n with
   | zero => exact IngInv.init s0 N.hw
   | succ n ih =>
     obtain ⟨hcn, hreach, e, p, hpk, hpp, ha, hst⟩ := nco_step_ctx_B N n hc
-    exact (ih hcn).step_B N (simAt_reach env s0 n) hreach (simAt_reach env s0 (n + 1)) hpk hpp ha hst
+    exact (ih hcn).step_B N h2 (simAt_reach env s0 n) hreach (simAt_reach env s0 (n + 1)) hpk hpp ha hst
 
 /-- **NC-A2.**  In a run that has not raised, the first block of a provisioning process finds at
 least as many machines available as it asks for: `provision_ingest_resources` does not raise. -/
-theorem nc_provIngest_fits_B (N : NcCfgB env s0) (n : Nat) (hc : (simAt env s0 n).st.crashed = none)
+theorem nc_provIngest_fits_B (N : NcCfgB env s0) (h2 : Sys.OneAdmission s0) (n : Nat) (hc : (simAt env s0 n).st.crashed = none)
     {e : HEntry} {p : Proc} (hpk : (simAt env s0 n).peek = some e)
     (hpp : (simAt env s0 n).st.proc? e.pid = some p) (ha : p.alive = true) {o : Oid} {d : Nat}
     (hk : p.k = .provIngest o d) (hpc : p.pc = 0) : d ≤ (simAt env s0 n).st.cl.available.length := by
@@ -311,5 +312,5 @@ theorem nc_provIngest_fits_B (N : NcCfgB env s0) (n : Nat) (hc : (simAt env s0 n
   have hinv := (simAt_reach env s0 n).l3inv N.hw
   have hd := (hinv.il.piLive p hpm ha hpc o d hk).1
   rw [hd]
-  exact (nco_ingInv_B N n hc).fit p hpm ha hpc o (by rw [hk]; rfl)
+  exact (nco_ingInv_B N h2 n hc).fit p hpm ha hpc o (by rw [hk]; rfl)
 end Topsim
